@@ -322,6 +322,9 @@ class Parser:
         )
         if condition:
             self.__curcommand.reassign_arguments()
+            if not self.__curcommand.iscomplete():
+                # nothing to reassign: replaying the token would loop forever
+                return False
             # rewind lexer
             self.lexer.pos -= 1
             return True
